@@ -6,30 +6,33 @@ tier = "quick"
 args = sys.argv[1:]
 if args and args[0] in ("quick", "thorough"):
     tier = args.pop(0)
-S = "/verif/seeded"
+V = os.path.dirname(os.path.dirname(os.path.abspath(__file__)))
+REPO = os.environ.get("VERIF_REPO") or os.environ.get("VP_RUN_REPO") or "/repo"
+os.environ["VERIF_REPO"] = REPO
+S = os.path.join(V, "seeded")
 ids = args or sorted(d for d in os.listdir(S) if os.path.isdir(os.path.join(S, d)))
-manifest = json.load(open("/verif/MANIFEST.json"))
+manifest = json.load(open(os.path.join(V, "MANIFEST.json")))
 claimed = {c["property_id"] for c in manifest["checks"]}
 resf = os.path.join(S, "RESULTS.json")
 results = json.load(open(resf)) if os.path.exists(resf) else {}
-assert subprocess.run("git -C /repo status --porcelain", shell=True, capture_output=True).stdout.strip() == b"", "/repo not clean"
+assert subprocess.run("git -C %s status --porcelain" % REPO, shell=True, capture_output=True).stdout.strip() == b"", REPO + " not clean"
 for sid in ids:
     prop = sid.split("-")[0]
     if prop not in claimed:
         print(sid, "property not claimed yet"); continue
     patch = os.path.join(S, sid, "patch.diff")
-    rc = subprocess.run("git -C /repo apply %s" % patch, shell=True).returncode
+    rc = subprocess.run("git -C %s apply %s" % (REPO, patch), shell=True).returncode
     if rc != 0:
         print(sid, "PATCH DOES NOT APPLY"); results[sid] = {"outcome": "patch does not apply on current /repo"}; continue
     t0 = time.time()
-    evf = "/verif/evidence/%s.json" % prop
+    evf = os.path.join(V, "evidence", "%s.json" % prop)
     saved = open(evf).read() if os.path.exists(evf) else None
     try:
-        p = subprocess.run(["./check", prop, tier], cwd="/verif", capture_output=True, timeout=3600)
+        p = subprocess.run(["./check", prop, tier], cwd=V, capture_output=True, timeout=3600)
         out = p.stdout.decode("utf-8", "replace")
         rcc = p.returncode
     finally:
-        subprocess.run("git -C /repo checkout -- . && git -C /repo clean -fdq", shell=True)
+        subprocess.run("git -C %s checkout -- . && git -C %s clean -fdq" % (REPO, REPO), shell=True)
         # evidence files must only ever come from runs on the unchanged tree
         if saved is not None:
             open(evf, "w").write(saved)
@@ -48,4 +51,4 @@ for sid in ids:
     json.dump(results, open(resf, "w"), indent=1, sort_keys=True)
 
 # regen after restore: the Gen files and the driver must describe the unchanged tree again
-subprocess.call("/verif/go/bin/go2lean -repo /repo -out /verif/lean/MocModel/Gen -pin /verif/go/go2lean/pinned.json -report /tmp/genrep.json >/dev/null 2>&1", shell=True)
+subprocess.call("%s/go/bin/go2lean -repo %s -out %s/lean/MocModel/Gen -pin %s/go/go2lean/pinned.json -report /tmp/genrep.json >/dev/null 2>&1" % (V, REPO, V, V), shell=True)
